@@ -97,13 +97,19 @@ class C18(Prop):
             c = {"kind": "part", "alts": alts, "orders": dedup(orders)}
             if rng.random() < 0.5:
                 c["store"] = gen.perm(rng, alts)      # alternatives_name not in increasing id order
-            yield c
+            yield gen.strict_case_extras(rng, c)
 
     def run_impl(self, case):
         from preflibtools.properties.subdomains.ordinal.singlepeaked import k_alternative_partition as K
-        prof = [(tuple((a,) for a in o), 1) for o in case["orders"]]
-        mk = lambda: gen.make_ordinal(prof, alts=case.get("store", case["alts"]), data_type="soc")
+        store = case.get("store", case["alts"])
+        grown = None
+        if case.get("grow"):
+            # ONE object: queried, grown through an append_* entry point, and used for every call below
+            grown = gen.strict_case_instance(case, lambda i: K.k_alt_partition_approx(i), alts=store)
+            store = [int(a) for a in grown.alternatives_name]
+        mk = (lambda: grown) if grown is not None else (lambda: gen.strict_case_instance(dict(case, grow=False), None, alts=store))
         self.count("m:" + str(len(case["alts"])))
+        self.count("built:" + ("grown" if grown is not None else "direct") + ("+mult" if case.get("mults") else ""))
 
         def axes(r):
             if r[0] != "ok":
@@ -114,7 +120,7 @@ class C18(Prop):
                 return ("ok", [[int(a) for a in ax] for ax in r[1]])
             except Exception:
                 return ("ok", "malformed")
-        obs = {"approx": axes(call(K.k_alt_partition_approx, mk(), limit=30)), "brute": {}}
+        obs = {"approx": axes(call(K.k_alt_partition_approx, mk(), limit=30)), "brute": {}, "store": store}
         for k in range(1, len(case["alts"]) + 1):
             obs["brute"][k] = axes(call(K.k_alternative_partition_brut_force, mk(), k, limit=30))
         return obs
@@ -127,13 +133,13 @@ class C18(Prop):
             certs["axes"] = a[1]
         reqs.append({"op": "dom.nearly", "alts": case["alts"], "orders": [[[x] for x in o] for o in case["orders"]],
                      "brute": len(case["alts"]) <= 7, "certs": certs})
-        reqs.append({"op": "kalt.partition", "alts": case.get("store", case["alts"]), "orders": case["orders"]})
+        reqs.append({"op": "kalt.partition", "alts": obs["store"], "orders": case["orders"]})
         for k, r in obs["brute"].items():
             c = {"axes2": r[1]} if r[0] == "ok" and isinstance(r[1], list) else {}
             reqs.append({"op": "dom.nearly", "alts": case["alts"], "orders": [[[x] for x in o] for o in case["orders"]],
                          "brute": False, "certs": c})
         for k in obs["brute"]:
-            reqs.append({"op": "kalt.bf", "alts": case.get("store", case["alts"]), "orders": case["orders"], "k": int(k)})
+            reqs.append({"op": "kalt.bf", "alts": obs["store"], "orders": case["orders"], "k": int(k)})
         return reqs
 
     def nontrivial_key(self, case, obs):
@@ -192,14 +198,22 @@ class C18(Prop):
 
     def shrink_candidates(self, case):
         os_ = case["orders"]
+        yield from gen.strict_case_shrinks(case)
+        ms = case.get("mults")
         for i in range(len(os_)):
             if len(os_) > 1:
-                yield dict(case, orders=os_[:i] + os_[i + 1:])
+                c2 = dict(case, orders=os_[:i] + os_[i + 1:])
+                if ms:
+                    c2["mults"] = ms[:i] + ms[i + 1:]
+                yield c2
         if len(case["alts"]) > 1:
             for x in case["alts"]:
                 o2 = [[a for a in o if a != x] for o in os_]
                 if len({tuple(o) for o in o2}) == len(o2):
-                    yield dict(case, alts=[a for a in case["alts"] if a != x], orders=o2)
+                    c2 = dict(case, alts=[a for a in case["alts"] if a != x], orders=o2)
+                    if "store" in case:
+                        c2["store"] = [a for a in case["store"] if a != x]
+                    yield c2
 
 
 PROP = C18
